@@ -74,17 +74,6 @@ COVER_DIR = os.environ.get("VERIF_COVER", "")
 # evidence and replays go to /verif unless the check is pointed at another tree (seeded-change experiments):
 # those runs must not overwrite the evidence of the real tree
 OUT = VERIF if "VERIF_REPO" not in os.environ else os.environ.get("VERIF_OUT", os.path.join(REPO, ".verif-out"))
-_cover_pkgs = []
-
-
-def cover_flags(modfile):
-    if not COVER_DIR:
-        return []
-    os.makedirs(COVER_DIR, exist_ok=True)
-    if not _cover_pkgs:
-        p = sh(["go", "list", "./..."], cwd=REPO, timeout=600)
-        _cover_pkgs.extend(x for x in p.stdout.split() if "/generator" not in x and x.startswith("github.com/"))
-    return ["-cover", "-coverpkg=" + ",".join(_cover_pkgs)]
 
 
 class Ctx:
@@ -133,9 +122,19 @@ class Ctx:
         cmd = ["go", "build", "-tags", ",".join(tags), "-overlay", overlay, "-o", out]
         if race:
             cmd.append("-race")
-        if not extra_overlay_dir:
-            cmd += cover_flags(self.modfile())
-        cmd += list(extra_flags) + ["."]
+        if COVER_DIR and os.environ.get("VERIF_HOOKS_MATERIALIZED") and not extra_overlay_dir:
+            # coverage mode (tools/coverage_run.sh): REPO is a scratch copy with the hooks materialised; -coverpkg only
+            # instruments packages of the main module, so the driver is built as a command INSIDE that copy
+            os.makedirs(COVER_DIR, exist_ok=True)
+            hdir = os.path.join(REPO, "cmd", "verifharness")
+            os.makedirs(hdir, exist_ok=True)
+            for fn in os.listdir(os.path.join(VERIF, "harness")):
+                if fn.endswith(".go"):
+                    shutil.copy(os.path.join(VERIF, "harness", fn), hdir)
+            cmd = ["go", "build", "-cover", "-coverpkg=./...", "-tags", ",".join(tags), "-o", out] + (["-race"] if race else []) + ["./cmd/verifharness"]
+            hdir = REPO
+        else:
+            cmd += list(extra_flags) + ["."]
         t = time.time()
         p = sh(cmd, cwd=hdir, timeout=1500, check=False)
         if p.returncode != 0:
